@@ -230,6 +230,14 @@ bool comp_init(zckCtx *zck) {
             zck->chunk_auto_max = (zck->buzhash_bitmask + 1) * 4;
             if(zck->chunk_auto_max > zck->chunk_max_size)
                 zck->chunk_auto_max = zck->chunk_max_size;
+            /* The configured limits win over the ones derived from the average
+             * chunk size: a maximum below the automatic minimum (or a minimum
+             * above the automatic maximum) must not leave us with a chunk that
+             * has to be ended and can't be */
+            if(zck->chunk_auto_max < zck->chunk_min_size)
+                zck->chunk_auto_max = zck->chunk_min_size;
+            if(zck->chunk_auto_min > zck->chunk_auto_max)
+                zck->chunk_auto_min = zck->chunk_auto_max;
             zck_log(ZCK_LOG_DEBUG, "Setting automatic maximum chunk size to %llu",
                     (long long unsigned) zck->chunk_auto_max);
         }
